@@ -53,7 +53,7 @@ TRUSTED_EXTRA = ["purity of the CPython/pandas code is not a theorem: it is esta
 _DS = {}
 _REF = {}
 SMALL = ("FL_ci_cn", "FL_sem", "FL_ampdel", "FL_cc", "IG_list", "IG_empty", "IG_tuple", "THR", "LOC", "SPR", "IVL")
-FILTER_LISTS = {"FL_ci_cn": ["ci", "cn"], "FL_sem": ["sem"], "FL_ampdel": ["ampdel"], "FL_cc": ["ci", "ci", "cn"]}
+FILTER_LISTS = {"FL_ci_cn": ["ci", "cn"], "FL_sem": ["sem"], "FL_ampdel": ["ampdel"], "FL_cc": ["cn", "ci", "cn"]}
 
 
 def _mkds(seed):
@@ -342,3 +342,468 @@ def reference_result(ds_seed, base):
     if key not in _REF:
         _REF[key] = _run_op(base, fresh_env(ds_seed), 987654321)
     return _REF[key]
+
+
+# ---------------------------------------------------------------------------------------------
+# op `history`
+
+HEAP_NAMES = ["FL_ci_cn", "FL_sem", "FL_ampdel", "FL_cc", "IG_list", "IG_empty", "IG_tuple", "THR", "LOC", "SPR", "IVL"]
+READS = {"segmetrics": ["LOC", "SPR", "IVL"], "segmetrics-smooth": ["LOC", "SPR", "IVL"]}
+PREFIX = bool(os.environ.get("C10_PREFIX_MODEL"))  # development: the model of the code before fix J
+
+
+def base_of(name):
+    return name.split("@")[0]
+
+
+def procs_of(name):
+    return int(name.split("@p")[1]) if "@p" in name else 1
+
+
+def uses_of(name):
+    b = base_of(name)
+    u = [[("ignore_tuple" if n == "IG_tuple" else role), HEAP_NAMES.index(n)] for role, n in SMALL_USE.get(b, [])]
+    if b.startswith("call-"):
+        u.append(["read", HEAP_NAMES.index("THR")])
+    u += [["read", HEAP_NAMES.index(n)] for n in READS.get(b, [])]
+    return u
+
+
+def _heap(env):
+    return [[str(x) for x in env[n]] for n in HEAP_NAMES]
+
+
+def _tables(env):
+    return sorted([k, digest(v)] for k, v in env.items() if k not in HEAP_NAMES)
+
+
+def _run_history(case):
+    i = case["in"]
+    env = fresh_env(i["ds"])
+    out = {"heap0": _heap(env), "steps": []}
+    for st in i["steps"]:
+        before = _tables(env)
+        res = _run_op(st["name"], env, st["seed"])
+        out["steps"].append({"res": res, "fresh": reference_result(i["ds"], base_of(st["name"])),
+                             "before": before, "after": _tables(env), "heap": _heap(env)})
+    return out
+
+
+# ---------------------------------------------------------------------------------------------
+# op `ensure_path`
+
+
+def _tiny(i):
+    from cnvlib.cnary import CopyNumArray as CNA
+    return CNA.from_rows([("chr1", 100 * i, 100 * i + 50 + i, "g%d" % i, 0.25 * i)],
+                         columns=["chromosome", "start", "end", "gene", "log2"], meta_dict={"sample_id": "w%d" % i})
+
+
+def _run_ensure_path(case):
+    from skgenome import tabio
+    from cnvlib import core as cnvcore
+    i = case["in"]
+    root = tempfile.mkdtemp(dir="/var/tmp", prefix="c10ep")
+    try:
+        d = os.path.join(root, "d")
+        os.mkdir(d)
+        for name, tok in i["pre"]:
+            p = os.path.join(d, name)
+            os.makedirs(os.path.dirname(p), exist_ok=True)
+            with open(p, "w") as f:
+                f.write(tok)
+        texts = {tok: tok for _n, tok in i["pre"]}
+        target = os.path.join(d, i["path"])
+        for k in range(i["writes"]):
+            arr = _tiny(k)
+            refp = os.path.join(root, "ref%d" % k)
+            tabio.write(arr, refp)
+            texts[open(refp).read()] = "w%d" % k
+            if i["guarded"]:
+                cnvcore.ensure_path(target)
+            else:
+                os.makedirs(os.path.dirname(target), exist_ok=True)
+            tabio.write(arr, target)
+        files = []
+        for dp, _dn, fns in os.walk(d):
+            for fn in fns:
+                p = os.path.join(dp, fn)
+                t = open(p).read()
+                files.append([os.path.relpath(p, d), texts.get(t, "?" + hashlib.sha1(t.encode()).hexdigest()[:8])])
+        return {"files": sorted(files)}
+    finally:
+        shutil.rmtree(root, ignore_errors=True)
+
+
+# ---------------------------------------------------------------------------------------------
+# op `rng_trace`: record the calls into the global generators while a function of the RNG table runs
+
+_NP_RANDOM = ["seed", "permutation", "randint", "randn", "shuffle", "rand", "random", "random_sample", "choice", "normal",
+              "standard_normal", "uniform", "sample", "ranf", "bytes", "beta", "binomial", "poisson", "exponential",
+              "gamma", "multivariate_normal", "random_integers", "default_rng", "RandomState"]
+_PY_RANDOM = ["seed", "random", "randint", "randrange", "choice", "choices", "shuffle", "sample", "uniform", "gauss",
+              "normalvariate", "getrandbits", "betavariate", "expovariate"]
+
+
+class _Recorder:
+    def __init__(self):
+        self.trace = []
+        self.saved = []
+
+    def __enter__(self):
+        import numpy as np
+
+        def wrap(mod, name, orig):
+            def f(*a, **k):
+                if name == "seed":
+                    c = a[0] if a else k.get("seed", k.get("a"))
+                    self.trace.append(["seed", int(c) if isinstance(c, int) and not isinstance(c, bool) and c >= 0 else None])
+                elif name in ("default_rng", "RandomState"):
+                    c = a[0] if a else k.get("seed")
+                    if not (isinstance(c, int) and not isinstance(c, bool)):
+                        self.trace += [["seed", None], ["draw", name]]
+                else:
+                    self.trace.append(["draw", name])
+                return orig(*a, **k)
+            return f
+        for mod, names in ((np.random, _NP_RANDOM), (_pyrandom, _PY_RANDOM)):
+            for n in names:
+                if hasattr(mod, n):
+                    orig = getattr(mod, n)
+                    self.saved.append((mod, n, orig))
+                    setattr(mod, n, wrap(mod, n, orig))
+        return self
+
+    def __exit__(self, *a):
+        for mod, n, orig in self.saved:
+            setattr(mod, n, orig)
+
+
+def _trace_entries():
+    import numpy as np
+    from skgenome import tabio
+    from cnvlib import fix, reference, segmentation, segmetrics, call, reports
+
+    def cbw(e, v):
+        key = e["ref"]["gc"] if v.get("series") else e["ref"]["gc"].values
+        return fix.center_by_window(e["ref"].copy(), v.get("fraction", 0.1), key)
+
+    def cib(e, v):
+        k = v.get("k", 12)
+        vals = np.asarray(e["cnr"]["log2"].values[:k], dtype=float)
+        wts = np.asarray(e["cnr"]["weight"].values[:k], dtype=float)
+        return segmetrics.confidence_interval_bootstrap(vals, wts, v.get("alpha", 0.05), v.get("bootstraps", 20),
+                                                        v.get("smoothed", False))
+
+    def ssw(e, v):
+        k = v.get("k", 5)
+        vals = np.asarray(e["cnr"]["log2"].values[:k], dtype=float)
+        wts = np.asarray(e["cnr"]["weight"].values[:k], dtype=float)
+        return segmetrics._smooth_samples_by_weight(vals, [(vals, wts)] * v.get("n", 3))
+
+    def doref(e, v):
+        d = tempfile.mkdtemp(dir="/var/tmp", prefix="c10ref")
+        try:
+            tf, af = [], []
+            for s in range(v.get("samples", 2)):
+                t, a = e["tgt"].copy(), e["anti"].copy()
+                t["log2"] = t["log2"] + 0.01 * s
+                tp, ap = os.path.join(d, "s%d.targetcoverage.cnn" % s), os.path.join(d, "s%d.antitargetcoverage.cnn" % s)
+                tabio.write(t, tp)
+                tabio.write(a, ap)
+                tf.append(tp)
+                af.append(ap)
+            return reference.do_reference(tf, af, None, do_gc=False, do_edge=v.get("edge", True), do_rmask=False)
+        finally:
+            shutil.rmtree(d, ignore_errors=True)
+
+    return {
+        "cnvlib.fix.center_by_window": cbw,
+        "cnvlib.fix.do_fix": lambda e, v: fix.do_fix(e["tgt"], e["anti"], e["ref"], do_gc=v.get("gc", True),
+                                                     do_edge=v.get("edge", True), do_rmask=v.get("rmask", True)),
+        "cnvlib.fix.load_adjust_coverages": lambda e, v: fix.load_adjust_coverages(
+            e["tgt"], e["ref"], True, v.get("gc", True), v.get("edge", True), v.get("rmask", True), None),
+        "cnvlib.segmetrics.confidence_interval_bootstrap": cib,
+        "cnvlib.segmetrics._smooth_samples_by_weight": ssw,
+        "cnvlib.segmetrics.make_ci_func": lambda e, v: segmetrics.make_ci_func(0.05, 20, v.get("smoothed", False)),
+        "cnvlib.segmetrics.do_segmetrics": lambda e, v: segmetrics.do_segmetrics(
+            e["cnr"], e["seg"], ("mean",), ("sem",), tuple(v.get("ivl", ["ci", "pi"])), alpha=v.get("alpha", 0.05),
+            bootstraps=v.get("bootstraps", 20), smoothed=v.get("smoothed", False)),
+        "cnvlib.reference.do_reference": doref,
+        "skgenome.gary.GenomicArray.shuffle": lambda e, v: e["cnr"].copy().shuffle(),
+        # functions the table does not list must not touch the generators at all
+        "cnvlib.segmentation.do_segmentation": lambda e, v: segmentation.do_segmentation(e["cnr"], v.get("method", "haar")),
+        "cnvlib.call.do_call": lambda e, v: call.do_call(e["sm"], method="threshold", filters=["ci", "cn"]),
+        "cnvlib.reports.do_genemetrics": lambda e, v: reports.do_genemetrics(e["cnr"], e["seg"], 0.2, 3, is_sample_female=True),
+    }
+
+
+def _run_rng_trace(case):
+    i = case["in"]
+    env = fresh_env(i["ds"])
+    f = _trace_entries()[i["fn"]]
+    _seed_rngs(i.get("seed", 1))
+    with _Recorder() as rec:
+        f(env, i.get("variant", {}))
+    return {"trace": rec.trace}
+
+
+# ---------------------------------------------------------------------------------------------
+# op `gather`
+
+
+def _gather_task(args):
+    import time
+    x, delay = args
+    time.sleep(delay)
+    return x * x + 1, time.time()
+
+
+def _run_gather(case):
+    from cnvlib import parallel
+    i = case["in"]
+    with parallel.pick_pool(i["procs"]) as pool:
+        got = list(pool.map(_gather_task, list(zip(i["xs"], i["delays"]))))
+    order = sorted(range(len(got)), key=lambda k: (got[k][1], k))
+    return {"res": [g[0] for g in got], "order": order}
+
+
+# ---------------------------------------------------------------------------------------------
+# harness interface
+
+
+def run_impl(case):
+    op = case["op"]
+    if op == "history":
+        return _run_history(case)
+    if op == "ensure_path":
+        return _run_ensure_path(case)
+    if op == "rng_trace":
+        return _run_rng_trace(case)
+    if op == "gather":
+        return _run_gather(case)
+    raise ValueError(op)
+
+
+def _failed(impl):
+    return isinstance(impl, dict) and "__error__" in impl
+
+
+def to_line(case, impl):
+    op, i = case["op"], case["in"]
+    if _failed(impl):
+        impl_j = None
+    if op == "history":
+        steps = []
+        for k, st in enumerate(i["steps"]):
+            fresh = impl["steps"][k]["fresh"] if not _failed(impl) else ""
+            steps.append({"name": base_of(st["name"]), "procs": procs_of(st["name"]), "uses": uses_of(st["name"]), "fresh": fresh})
+        heap0 = impl["heap0"] if not _failed(impl) else [[] for _ in HEAP_NAMES]
+        impl_j = None if _failed(impl) else {"steps": [{k: s[k] for k in ("res", "before", "after", "heap")} for s in impl["steps"]]}
+        return {"op": op, "in": {"prefix": PREFIX, "heap": heap0, "steps": steps}, "impl": impl_j}
+    if op == "ensure_path":
+        return {"op": op, "in": {"pre": i["pre"], "path": i["path"], "writes": ["w%d" % k for k in range(i["writes"])],
+                                 "guarded": i["guarded"]}, "impl": None if _failed(impl) else impl}
+    if op == "rng_trace":
+        return {"op": op, "in": {"fn": i["fn"]}, "impl": None if _failed(impl) else impl}
+    if op == "gather":
+        order = impl["order"] if not _failed(impl) else list(range(len(i["xs"])))
+        return {"op": op, "in": {"xs": i["xs"], "order": order}, "impl": None if _failed(impl) else {"res": impl["res"]}}
+    raise ValueError(op)
+
+
+def judge(case, impl, resp):
+    if _failed(impl):
+        return ["raises_" + impl["__error__"]], [], None
+    if "error" in resp:
+        return [], ["driver error: " + str(resp["error"])], None
+    op, out = case["op"], resp["out"]
+    spec_fail = list(resp.get("spec") or [])
+    disagree = []
+    if op == "history":
+        for k, (a, b) in enumerate(zip(impl["steps"], out["steps"])):
+            if a["res"] != b["res"]:
+                disagree.append("step %d (%s): result %s, model (pure function) %s" % (k, case["in"]["steps"][k]["name"], a["res"], b["res"]))
+            if a["heap"] != b["heap"]:
+                disagree.append("step %d: list arguments %s, model %s" % (k, a["heap"], b["heap"]))
+    elif op == "ensure_path":
+        if impl["files"] != out["files"]:
+            disagree.append("directory %s, model %s" % (impl["files"], out["files"]))
+    elif op == "rng_trace":
+        if not out.get("accepted"):
+            disagree.append("trace %s is not a path of the extracted skeleton of %s (known=%s)" % (impl["trace"][:8], case["in"]["fn"], out["known"]))
+        if case["in"].get("listed") is not None and out["known"] != case["in"]["listed"]:
+            disagree.append("RNG table %s %s" % ("misses" if case["in"]["listed"] else "unexpectedly lists", case["in"]["fn"]))
+    elif op == "gather":
+        if [x for x in out["res"]] != impl["res"]:
+            disagree.append("pool.map gave %s, ordered-gather model %s" % (impl["res"], out["res"]))
+    return spec_fail, disagree, None
+
+
+def nontrivial(case, impl, resp):
+    if _failed(impl):
+        return False
+    op, i = case["op"], case["in"]
+    if op == "history":
+        return len(i["steps"]) >= 2 or any("@p" in s["name"] for s in i["steps"])
+    if op == "ensure_path":
+        return i["writes"] >= 2 or any(n == i["path"] for n, _t in i["pre"])
+    if op == "rng_trace":
+        return any(o[0] == "draw" for o in impl["trace"])
+    if op == "gather":
+        return impl["order"] != sorted(impl["order"]) or i["procs"] > 1
+    return True
+
+
+# -- generators
+
+
+def _hist(ds, names, rng, tag):
+    return {"op": "history", "tag": tag, "in": {"ds": ds, "steps": [{"name": n, "seed": rng.randrange(2 ** 31)} for n in names]}}
+
+
+def _ensure_case(rng, tag="ensure_path"):
+    path = rng.choice(["out.cnn", "out.cnn", "ref.cnn", "sub/out.cnn", "a.b/c.d.cnn"])
+    pool = [path, path + ".1", path + ".2", path + ".3", path + ".4", path + ".01", path + ".1.1", path + ".x", path + "1",
+            "other.cnn", "other.cnn.1", path + ".10"]
+    k = rng.random()
+    if k < 0.25:
+        pre = []
+    elif k < 0.5:
+        pre = [path]
+    else:
+        pre = [n for n in pool if rng.random() < 0.35]
+    if rng.random() < 0.15:  # many consecutive backups already there
+        pre = [path] + [path + ".%d" % j for j in range(1, rng.randint(2, 12))]
+    pre = sorted(set(pre))
+    return {"op": "ensure_path", "tag": tag + ("-existing" if path in pre else "-new"),
+            "in": {"pre": [[n, "pre:%d:%s" % (j, n)] for j, n in enumerate(pre)], "path": path,
+                   "writes": rng.randint(1, 5), "guarded": True}}
+
+
+TRACE_VARIANTS = {
+    "cnvlib.fix.center_by_window": [{}, {"series": True}, {"fraction": 0.3}],
+    "cnvlib.fix.do_fix": [{}, {"gc": False}, {"edge": False, "rmask": False}, {"gc": False, "edge": False, "rmask": False}],
+    "cnvlib.fix.load_adjust_coverages": [{}, {"rmask": False}],
+    "cnvlib.segmetrics.confidence_interval_bootstrap": [{}, {"k": 1}, {"smoothed": True}, {"smoothed": True, "k": 2, "bootstraps": 5},
+                                                        {"alpha": 0.5, "bootstraps": 3}, {"k": 40, "bootstraps": 100}],
+    "cnvlib.segmetrics._smooth_samples_by_weight": [{}, {"n": 0}],
+    "cnvlib.segmetrics.make_ci_func": [{}],
+    "cnvlib.segmetrics.do_segmetrics": [{}, {"smoothed": True, "bootstraps": 10}, {"ivl": ["pi"]}, {"ivl": ["ci"], "alpha": 0.2}],
+    "cnvlib.reference.do_reference": [{}, {"edge": False}, {"samples": 1}],
+    "skgenome.gary.GenomicArray.shuffle": [{}],
+    "cnvlib.segmentation.do_segmentation": [{"method": "haar"}, {"method": "hmm"}, {"method": "hmm-tumor"},
+                                            {"method": "hmm-germline"}, {"method": "none"}],
+    "cnvlib.call.do_call": [{}],
+    "cnvlib.reports.do_genemetrics": [{}],
+}
+UNLISTED = {"cnvlib.segmentation.do_segmentation", "cnvlib.call.do_call", "cnvlib.reports.do_genemetrics"}
+
+
+def _trace_cases(rng, ds, n):
+    out = []
+    allv = [(fn, v) for fn, vs in TRACE_VARIANTS.items() for v in vs]
+    if n < len(allv):
+        allv = allv[:]
+        rng.shuffle(allv)
+        allv = sorted(allv[:n], key=lambda x: x[0])
+    for fn, v in allv:
+        out.append({"op": "rng_trace", "tag": fn.rsplit(".", 1)[1],
+                    "in": {"fn": fn, "ds": ds, "variant": v, "seed": rng.randrange(2 ** 31), "listed": fn not in UNLISTED}})
+    return out
+
+
+def _gather_case(rng):
+    n = rng.choice([0, 1, 2, 3, 5, 8, 12])
+    procs = rng.choice([1, 2, 3, 16])
+    xs = [rng.randint(-50, 50) for _ in range(n)]
+    k = rng.random()
+    if k < 0.5:  # later tasks finish first
+        delays = [round(0.03 * (n - j) / max(1, n), 4) for j in range(n)]
+    else:
+        delays = [round(rng.choice([0.0, 0.005, 0.02, 0.04]), 4) for _ in range(n)]
+    return {"op": "gather", "tag": "p%d" % procs, "in": {"xs": xs, "delays": delays, "procs": procs}}
+
+
+def gen_cases(rng, tier):
+    cases = []
+    nds = {"quick": 2, "thorough": 4, "search": 2}[tier]
+    dss = [rng.randrange(1, 10 ** 6) for _ in range(nds)]
+    allops = BASE_OPS + PAR_OPS
+    if tier == "quick":
+        # exhaustive: every history of length <= 2 over the base alphabet; worker-count variants with sampled partners
+        for n in allops:
+            cases.append(_hist(dss[0], [n], rng, "len1"))
+        for a in BASE_OPS:
+            for b in BASE_OPS:
+                cases.append(_hist(dss[(BASE_OPS.index(a) + BASE_OPS.index(b)) % nds], [a, b], rng, "len2"))
+        for a in PAR_OPS:
+            for b in rng.sample(BASE_OPS, 4) + [a, base_of(a)]:
+                cases.append(_hist(rng.choice(dss), [a, b], rng, "len2-workers"))
+                cases.append(_hist(rng.choice(dss), [b, a], rng, "len2-workers"))
+        n_ep, n_tr, n_ga, n_long = 160, 100, 24, 60
+    elif tier == "thorough":
+        for n in allops:
+            for ds in dss:
+                cases.append(_hist(ds, [n], rng, "len1"))
+        n_ep, n_tr, n_ga, n_long = 1200, 100, 80, 5000
+    else:  # search: biased to the steps that reach the generators, the pools and the list arguments
+        n_ep, n_tr, n_ga, n_long = 200, 100, 10, 500
+    hot = ["fix", "segmetrics", "segmetrics-smooth", "call-ci-cn", "call-sem", "call-cc", "by_gene-list", "squash_genes-list",
+           "transfer_fields-list", "gene_intervals-list", "call-threshold", "center_all-copy", "merge", "export-vcf"] + PAR_OPS
+    for _ in range(n_long):
+        ln = rng.choice([3, 4, 4]) if tier != "search" else rng.choice([1, 2, 3])
+        names = [rng.choice(hot if (tier == "search" or rng.random() < 0.35) else allops) for _ in range(ln)]
+        if rng.random() < 0.3:
+            names[-1] = names[0]  # repeated
+        # keep the 16-worker pools rare: they dominate the wall time
+        names = [n if not n.endswith("@p16") or rng.random() < 0.3 else n.replace("@p16", "@p2") for n in names]
+        cases.append(_hist(rng.choice(dss), names, rng, "len%d" % ln))
+    for _ in range(n_ep):
+        cases.append(_ensure_case(rng))
+    for _ in range(max(1, n_ep // 40)):
+        c = _ensure_case(rng, "plain_write")
+        c["in"]["guarded"] = False
+        cases.append(c)
+    cases += _trace_cases(rng, dss[0], n_tr)
+    for _ in range(n_ga):
+        cases.append(_gather_case(rng))
+    return cases
+
+
+def corpus():
+    rng = _pyrandom.Random(10)
+    ds = 77
+    cs = []
+    # J: do_call removes ci / sem from the caller's filter list; the second call sees another list
+    cs.append(_hist(ds, ["call-ci-cn", "call-ci-cn"], rng, "corpus-J-filters"))
+    cs.append(_hist(ds, ["call-sem", "call-sem"], rng, "corpus-J-filters"))
+    cs.append(_hist(ds, ["call-cc"], rng, "corpus-J-filters"))
+    # J: `ignore += ANTITARGET_ALIASES` extends a caller-supplied list
+    for n in ("by_gene-list", "squash_genes-list", "transfer_fields-list", "gene_intervals-list"):
+        cs.append(_hist(ds, [n], rng, "corpus-J-ignore"))
+    cs.append(_hist(ds, ["by_gene-list", "gene_intervals-list", "by_gene-list"], rng, "corpus-J-ignore"))
+    cs.append(_hist(ds, ["by_gene-tuple", "by_gene-tuple"], rng, "corpus-tuple"))
+    # boundary cases of the numbered backups
+    for pre, k in (([], 1), (["out.cnn"], 1), (["out.cnn", "out.cnn.1"], 2), (["out.cnn", "out.cnn.2"], 3),
+                   (["out.cnn.1"], 2), (["out.cnn"] + ["out.cnn.%d" % j for j in range(1, 11)], 2)):
+        cs.append({"op": "ensure_path", "tag": "corpus", "in": {"pre": [[n, "pre:" + n] for n in pre], "path": "out.cnn",
+                                                               "writes": k, "guarded": True}})
+    return cs
+
+
+def shrink(case):
+    i = case["in"]
+    if case["op"] == "history":
+        st = i["steps"]
+        for k in range(len(st)):
+            if len(st) > 1:
+                yield {**case, "in": {**i, "steps": st[:k] + st[k + 1:]}}
+        for k, s in enumerate(st):
+            if "@p" in s["name"]:
+                yield {**case, "in": {**i, "steps": st[:k] + [{**s, "name": base_of(s["name"]) + "@p2"}] + st[k + 1:]}}
+    elif case["op"] == "ensure_path":
+        for k in range(len(i["pre"])):
+            yield {**case, "in": {**i, "pre": i["pre"][:k] + i["pre"][k + 1:]}}
+        if i["writes"] > 1:
+            yield {**case, "in": {**i, "writes": i["writes"] - 1}}
